@@ -164,7 +164,8 @@ class Timeout(Event):
         delay: 'SimTime',
         value: Optional[Any] = None,
     ):
-        if delay < 0:
+        if not delay >= 0:
+            # also refuses NaN, which is neither negative nor orderable
             raise ValueError(f'Negative delay {delay}')
         # Timeout event has no callback
         super().__init__(env)
